@@ -2,12 +2,13 @@
   C05 — Hierarchical index: tree and table views agree; per-level selection is exact.
 
   Property theorems only (helper lemmas: LevelLemmas, LevelViewLemmas, LevelCacheLemmas,
-  LevelHLocLemmas, LevelSliceLemmas).  The model (`Level.iter`, `valuesAtDepth`, `toTypeBlocks`, `contains`,
+  LevelHLocLemmas, LevelSliceLemmas, LevelStepLemmas).  The model (`Level.iter`, `valuesAtDepth`, `toTypeBlocks`, `contains`,
   `locToIloc`, `HState.step`) mirrors the deque loops and the `_recache` protocol of the code.
 -/
 import SFModel.LevelCacheLemmas
 import SFModel.LevelHLocLemmas
 import SFModel.LevelSliceLemmas
+import SFModel.LevelStepLemmas
 set_option linter.unusedSectionVars false
 
 namespace SF.C05
@@ -258,5 +259,273 @@ example : exTree.locToIloc [.all, .all, .slice (some 2) (some 9) none] = .error 
 example : Level.clean [.label 10, .label 6, .slice (some 2) (some 9) none] exTree 0 = true := by decide
 example : exTree.locToIloc [.label 10, .label 6, .slice (some 2) (some 9) none]
     = .ok (.list [3, 4]) := by decide
+
+/-! ### per-level selection with label slices of any non-zero step -/
+
+/-- The key consists of label / all / list selectors and LABEL SLICES with any non-zero step (`None`,
+    `1`, a step `k > 1`, a negative step), any mix, any depth (missing trailing depths count as `all`),
+    and no list selector repeats a label. -/
+def StepKey (key : List (Sel α)) : Prop :=
+  (∀ dep, (key.getD dep .all).stepOK = true) ∧ (∀ dep as, key.getD dep .all = .list as → as.Nodup)
+
+/-- every `SliceKey` is a `StepKey` -/
+theorem StepKey.of_sliceKey {key : List (Sel α)} (hk : SliceKey key) : StepKey key := by
+  refine ⟨fun dep => ?_, hk.2⟩
+  have := hk.1 dep
+  cases h : key.getD dep .all with
+  | slice s e st =>
+    rw [h] at this
+    simp only [Sel.simpleS, decide_eq_true_eq] at this
+    rcases this with rfl | rfl <;> simp [Sel.stepOK]
+  | mask bs => rw [h] at this; simp [Sel.simpleS] at this
+  | _ => rfl
+
+/-- Selectors label / all / list / label slice with ANY non-zero step, any mix, any depth (extends
+    `hloc_exact_slices`, which stays as it is).
+
+    Every visited node maps a label slice `a:b:k` onto its OWN positions (`LocMap.map_slice_args` with
+    the repaired stop, `Index.mapSliceStop`), definitions in `LevelStepLemmas`:
+      * `Sel.startT ls k a`: the position of `a` among the node's labels `ls`; open: position 0 for
+        `k > 0`, the last position for `k < 0`;
+      * `Sel.stopT ls k b`: position of `b` plus 1 for `k > 0` (open: the number of labels), position of `b`
+        MINUS 1 for `k < 0` (open: `-1`, i.e. below the first position);
+      * `Sel.matchesT ls start x sel`: a slice selects the label `x` of the node iff the position `p` of
+        `x` is an element of `range(startT, stopT, k)` — `inRange`: for `k > 0`
+        `startT ≤ p < stopT ∧ (p - startT) % k = 0`, for `k < 0` `stopT < p ≤ startT ∧ (startT - p) % (-k) = 0`;
+        label / all / list select by value as before;
+      * `Level.matchT key t 0 0 tup`: every component of the tuple is selected by the selector of its depth
+        in the node the component lives in;
+      * `Level.cleanT key t 0`: no VISITED node lacks a slice endpoint (an absent endpoint is LocInvalid);
+      * `Level.specPosT`: the depth-first enumeration in which every node visits the targets it selects in
+        the order `range(startT, stopT, k)` yields them: index order for `k > 0` (and label / `:`),
+        DESCENDING for `k < 0`, the order of the list for a list selector;
+      * `Level.NE key t`: the key has no negative step, or every leaf index holds a label (true of every
+        hierarchy built from labels).  It is needed: on an EMPTY leaf at offset 0 the bounded start of
+        an open descending slice is `-1`, which `slice.indices` reads from the END of the hierarchy.
+
+    For a well-formed tree:
+     (1) when no visited node lacks an endpoint, `loc_to_iloc(HLoc[key])` either raises KeyError because
+         nothing matches, or returns an iloc key addressing exactly `specPosT` (in that order);
+     (2) a position is in `specPosT` iff its tuple matches every per-depth selector (`matchT`);
+     (3) without list selectors and without negative steps `specPosT` IS the list of matching positions
+         in index order;
+     (4) in every case `specPosT` is a rearrangement of the matching positions: each exactly once;
+     (5) when some visited node lacks an endpoint the call raises LocInvalid: the answer is never data. -/
+theorem hloc_exact_stepped {t : Level α} {d : Nat} (h : Level.WF d t) (ho : t.offset = 0)
+    (key : List (Sel α)) (hk : StepKey key) (hne : Level.NE key t) :
+    (Level.cleanT key t 0 = true →
+      (t.locToIloc key = .error .lookup ∧ Level.specPosT key t 0 0 = []) ∨
+        ∃ r, t.locToIloc key = .ok r ∧ r.positions t.len = .ok (Level.specPosT key t 0 0)) ∧
+    (∀ p, p ∈ Level.specPosT key t 0 0 ↔
+      ∃ tup, t.tuples[p]? = some tup ∧ Level.matchT key t 0 0 tup = true) ∧
+    ((∀ dep as, key.getD dep .all ≠ .list as) → (∀ dep, (key.getD dep .all).desc = false) →
+      Level.specPosT key t 0 0 = Level.matchPositionsT key t) ∧
+    (Level.specPosT key t 0 0).Perm (Level.matchPositionsT key t) ∧
+    (Level.cleanT key t 0 ≠ true → t.locToIloc key = .error .lookup) :=
+  have hs : ∀ dep, (key.getD dep .all).okAt (dep + 1 == d) t.len = true :=
+    fun dep => Level.okAt_of_stepOK (hk.1 dep) _ _
+  ⟨Level.locToIloc_stepped_result h ho key hs hk.2 hne, Level.specPosT_mem_iff h key t.len hs,
+    Level.specPosT_eq_matchPositionsT h key t.len hs, Level.specPosT_perm_matchPositionsT h key t.len hs hk.2,
+    Level.locToIloc_stepped_lookup h ho key hs hk.2 hne⟩
+
+/-- The order inside one node: the targets (labels of a leaf) a selector picks are visited in index order
+    unless the selector is a list (order of the list) or a slice with a negative step — and such a slice
+    visits them in DESCENDING order. -/
+theorem stepped_node_order (ls : List α) (sel : Sel α) :
+    ((∀ as, sel ≠ .list as) → sel.desc = false → (sel.idxsT ls).Pairwise (· < ·)) ∧
+    (sel.desc = true → (sel.idxsT ls).Pairwise (· > ·)) :=
+  ⟨Level.idxsT_sorted, Level.idxsT_desc⟩
+
+/-- What a slice selects in a node, read arithmetically: position `i` is visited iff the label at `i`
+    matches, i.e. `i ∈ range(startT, stopT, k)`. -/
+theorem stepped_node_selects {ls : List α} (hls : ls.Nodup) {sel : Sel α} (hs : sel.stepOK = true) (i : Nat) :
+    i ∈ sel.idxsT ls ↔ ∃ a, ls[i]? = some a ∧ sel.matchesT ls 0 a = true :=
+  Level.mem_idxsT hls hs 0 i
+
+/-- The same read from the answer: whenever `loc_to_iloc(HLoc[key])` returns data, no visited node lacked
+    a slice endpoint and the iloc key addresses exactly the positions whose tuple matches every per-depth
+    selector, each once — in index order when the key has neither a list selector nor a negative step. -/
+theorem hloc_stepped_answer {t : Level α} {d : Nat} (h : Level.WF d t) (ho : t.offset = 0)
+    (key : List (Sel α)) (hk : StepKey key) (hne : Level.NE key t) {r : IKey} (hr : t.locToIloc key = .ok r) :
+    Level.cleanT key t 0 = true ∧
+    ∃ ps, r.positions t.len = .ok ps ∧ ps = Level.specPosT key t 0 0 ∧
+      (∀ p, p ∈ ps ↔ ∃ tup, t.tuples[p]? = some tup ∧ Level.matchT key t 0 0 tup = true) ∧
+      ps.Perm (Level.matchPositionsT key t) ∧
+      ((∀ dep as, key.getD dep .all ≠ .list as) → (∀ dep, (key.getD dep .all).desc = false) →
+        ps = Level.matchPositionsT key t) := by
+  obtain ⟨h1, h2, h3, h4, h5⟩ := hloc_exact_stepped h ho key hk hne
+  have hc : Level.cleanT key t 0 = true := by
+    by_cases hc : Level.cleanT key t 0 = true
+    · exact hc
+    · rw [h5 hc] at hr; cases hr
+  refine ⟨hc, Level.specPosT key t 0 0, ?_, rfl, h2, h4, h3⟩
+  rcases h1 hc with ⟨he, _⟩ | ⟨r', hr', hp⟩
+  · rw [he] at hr; cases hr
+  · rw [hr'] at hr; cases hr; exact hp
+
+/-- Keys without slice endpoints (label / all / list, fully open slices `::k`) are always clean. -/
+theorem cleanT_of_no_endpoints (key : List (Sel α))
+    (hp : ∀ dep ls, (key.getD dep .all).present ls = true) (t : Level α) : Level.cleanT key t 0 = true :=
+  Level.cleanT_of_present key hp t 0
+
+/-! ### a Boolean mask at the innermost depth -/
+
+/-- `HLoc[outer…, mask]`: a Boolean mask at the innermost depth of a hierarchy of depth `d` below `d - 1`
+    selectors of the kinds of `hloc_exact_stepped` (label / all / list / slices with any non-zero step).
+    Every leaf cuts the mask to its own run of positions (`depth_key[offset : offset + len(level)]`), so
+    the mask selects by GLOBAL position: with `sel = specPosT outer` (what the outer selectors alone
+    select, in the order of `hloc_exact_stepped`; the missing innermost depth counts as `:`)
+     (1) when no visited node lacks a slice endpoint of the OUTER selectors, `loc_to_iloc` either raises
+         KeyError because nothing is selected, or returns an iloc key addressing exactly `sel` filtered by
+         the mask — same order;
+     (2) a position is in the result iff the mask holds `True` there and its tuple matches the outer
+         selectors;
+     (3) without list selectors and negative steps the result is in index order: the matching positions
+         of the outer selectors that hold `True`;
+     (4) a visited node lacking an endpoint: LocInvalid, never data.
+    The mask has to cover the hierarchy (`len(t) ≤ len(mask)`; NumPy's slicing of the mask silently
+    tolerates a longer one, a shorter one makes a leaf raise). -/
+theorem hloc_exact_mask {t : Level α} {d : Nat} (h : Level.WF d t) (ho : t.offset = 0)
+    (outer : List (Sel α)) (bs : List Bool) (hk : StepKey outer) (hlen : outer.length + 1 = d)
+    (hbs : t.len ≤ bs.length) (hne : Level.NE outer t) :
+    (Level.cleanT outer t 0 = true →
+      (t.locToIloc (outer ++ [.mask bs]) = .error .lookup ∧
+          (Level.specPosT outer t 0 0).filter (fun p => bs.getD p false) = []) ∨
+        ∃ r, t.locToIloc (outer ++ [.mask bs]) = .ok r ∧
+          r.positions t.len = .ok ((Level.specPosT outer t 0 0).filter (fun p => bs.getD p false))) ∧
+    (∀ p, p ∈ (Level.specPosT outer t 0 0).filter (fun p => bs.getD p false) ↔
+      bs.getD p false = true ∧ ∃ tup, t.tuples[p]? = some tup ∧ Level.matchT outer t 0 0 tup = true) ∧
+    ((∀ dep as, outer.getD dep .all ≠ .list as) → (∀ dep, (outer.getD dep .all).desc = false) →
+      (Level.specPosT outer t 0 0).filter (fun p => bs.getD p false) =
+        (Level.matchPositionsT outer t).filter (fun p => bs.getD p false)) ∧
+    (Level.cleanT outer t 0 ≠ true → t.locToIloc (outer ++ [.mask bs]) = .error .lookup) := by
+  have hs : ∀ dep, ((outer ++ [Sel.mask bs]).getD dep .all).okAt (dep + 1 == d) t.len = true :=
+    Level.okAt_snoc_mask hk.1 bs hlen hbs
+  have hnd : ∀ dep as, (outer ++ [Sel.mask bs]).getD dep .all = .list as → as.Nodup := by
+    intro dep as he
+    rw [Level.getD_snoc_mask] at he
+    by_cases hd : dep = outer.length
+    · rw [if_pos hd] at he; cases he
+    · rw [if_neg hd] at he; exact hk.2 dep as he
+  have hne' := Level.NE_snoc_mask bs hne
+  have hsp := Level.specPosT_mask outer bs d t 0 0 h (by omega)
+  have hcl := Level.cleanT_mask outer bs d t 0 h (by omega)
+  obtain ⟨_, a2, a3, _, _⟩ := hloc_exact_stepped h ho outer hk hne
+  refine ⟨fun hc => ?_, fun p => ?_, fun hnl hnd' => by rw [a3 hnl hnd'], fun hc => ?_⟩
+  · rw [← hsp]
+    exact Level.locToIloc_stepped_result h ho _ hs hnd hne' (by rw [hcl]; exact hc)
+  · rw [List.mem_filter, a2 p]
+    exact ⟨fun ⟨x, y⟩ => ⟨y, x⟩, fun ⟨x, y⟩ => ⟨y, x⟩⟩
+  · exact Level.locToIloc_stepped_lookup h ho _ hs hnd hne' (by rw [hcl]; exact hc)
+
+/-- the result of `hloc_exact_mask` said with the key itself: the tuple at a selected position matches
+    the whole key, the mask component by the global position of the tuple -/
+theorem mask_matches_by_position {t : Level α} {d : Nat} (h : Level.WF d t) (outer : List (Sel α))
+    (bs : List Bool) (hlen : outer.length + 1 = d) {tup : List α} {p : Nat} (ht : t.tuples[p]? = some tup) :
+    Level.matchT (outer ++ [.mask bs]) t 0 0 tup = (Level.matchT outer t 0 0 tup && bs.getD p false) :=
+  Level.matchT_mask_root h outer bs hlen ht
+
+/-! #### stepped / descending slices and the innermost mask on `exTree`
+
+    `exTree` (11 tuples):  10 → 5 → [1, 2, 3] (0-2),  10 → 6 → [2, 9, 3] (3-5),
+                           20 → 6 → [3, 2] (6-7),     20 → 5 → [2, 3, 4] (8-10). -/
+
+theorem exTree_NE (key : List (Sel Int)) : Level.NE key exTree := Or.inr (by decide)
+
+/-- `HLoc[::-1, :, ::2]`: outer labels descending (20 before 10), every other label of each leaf -/
+def exKeyStep : List (Sel Int) := [.slice none none (some (-1)), .all, .slice none none (some 2)]
+
+example : StepKey exKeyStep := by
+  constructor
+  · intro dep
+    match dep with
+    | 0 => decide
+    | 1 => rfl
+    | 2 => decide
+    | n + 3 => rfl
+  · intro dep as h
+    match dep, h with
+    | 0, h => cases h
+    | 1, h => cases h
+    | 2, h => cases h
+    | n + 3, h => cases h
+example : Level.cleanT exKeyStep exTree 0 = true := by decide
+example : exTree.locToIloc exKeyStep = .ok (.list [6, 8, 10, 0, 2, 3, 5]) := by decide
+example : Level.specPosT exKeyStep exTree 0 0 = [6, 8, 10, 0, 2, 3, 5] := by decide
+example : Level.matchPositionsT exKeyStep exTree = [0, 2, 3, 5, 6, 8, 10] := by decide
+
+/-- `HLoc[:, 6:5:-1, 3:2:-1]`: a descending slice between two labels, resolved per node.  Under 10 the
+    node `[5, 6]` visits 6 then 5; the leaf `[2, 9, 3]` selects the labels 3, 9, 2 (positions 2, 1, 0: by
+    position, 9 lies between), the leaf `[1, 2, 3]` the labels 3, 2.  Under 20 the node `[6, 5]` selects
+    nothing: 5 comes AFTER 6 there, `6:5:-1` is `range(0, 0, -1)`. -/
+def exKeyDesc : List (Sel Int) :=
+  [.all, .slice (some 6) (some 5) (some (-1)), .slice (some 3) (some 2) (some (-1))]
+
+example : StepKey exKeyDesc := by
+  constructor
+  · intro dep
+    match dep with
+    | 0 => rfl
+    | 1 => decide
+    | 2 => decide
+    | n + 3 => rfl
+  · intro dep as h
+    match dep, h with
+    | 0, h => cases h
+    | 1, h => cases h
+    | 2, h => cases h
+    | n + 3, h => cases h
+example : Level.cleanT exKeyDesc exTree 0 = true := by decide
+example : exTree.locToIloc exKeyDesc = .ok (.list [5, 4, 3, 2, 1]) := by decide
+example : Level.specPosT exKeyDesc exTree 0 0 = [5, 4, 3, 2, 1] := by decide
+example : Level.matchPositionsT exKeyDesc exTree = [1, 2, 3, 4, 5] := by decide
+/-- a positive step k > 1 between labels: `2::2` in every leaf (an endpoint held by every visited leaf) -/
+example : exTree.locToIloc [.all, .all, .slice (some 2) none (some 2)] = .ok (.list [1, 3, 5, 7, 8, 10]) := by decide
+/-- the repaired stop of a descending slice: `:2:-1` runs from the last label DOWN TO the label 2 -/
+example : exTree.locToIloc [.label 10, .label 6, .slice none (some 2) (some (-1))] = .ok (.list [5, 4, 3]) := by decide
+/-- an endpoint absent from a visited node → LocInvalid, also for a descending slice -/
+example : Level.cleanT [.all, .all, .slice (some 9) none (some (-1))] exTree 0 = false := by decide
+example : exTree.locToIloc [.all, .all, .slice (some 9) none (some (-1))] = .error .lookup := by decide
+/-- step 0 is outside `StepKey`: the model answers NumPy's ValueError -/
+example : exTree.locToIloc [.all, .all, .slice none none (some 0)] = .error .value := by decide
+
+/-- `Level.NE` is needed: a well-formed tree with an EMPTY leaf at offset 0 (not constructible from labels).
+    For `HLoc[:, ::-1]` the empty leaf yields `slice(-1, None, -1)` (`boundSlice`: start `offset + len - 1`),
+    which `slice.indices(2)` reads from the end: both positions are produced twice. -/
+theorem stepped_empty_leaf_counterexample :
+    Level.WF 2 (Level.node [7, 8] [.leaf [] 0, .leaf [1, 2] 0] 0 : Level Int) ∧
+    (Level.node [7, 8] [.leaf [] 0, .leaf [1, 2] 0] 0 : Level Int).locToIloc [.all, .slice none none (some (-1))]
+      = .ok (.list [1, 0, 1, 0]) ∧
+    Level.specPosT [.all, .slice none none (some (-1))] (Level.node [7, 8] [.leaf [] 0, .leaf [1, 2] 0] 0 : Level Int) 0 0
+      = [1, 0] := by
+  refine ⟨by simp [Level.WF, Level.WFList, Level.offset, Level.len], by decide, by decide⟩
+
+/-- an innermost mask below a descending outer slice: `HLoc[::-1, :, mask]` -/
+def exMask : List Bool := [true, false, true, true, false, false, true, true, false, false, true]
+def exOuter : List (Sel Int) := [.slice none none (some (-1)), .all]
+
+example : StepKey exOuter := by
+  constructor
+  · intro dep
+    match dep with
+    | 0 => decide
+    | 1 => rfl
+    | n + 2 => rfl
+  · intro dep as h
+    match dep, h with
+    | 0, h => cases h
+    | 1, h => cases h
+    | n + 2, h => cases h
+example : exOuter.length + 1 = 3 ∧ exTree.len ≤ exMask.length := by decide
+example : Level.cleanT exOuter exTree 0 = true := by decide
+example : Level.specPosT exOuter exTree 0 0 = [6, 7, 8, 9, 10, 0, 1, 2, 3, 4, 5] := by decide
+example : exTree.locToIloc (exOuter ++ [.mask exMask]) = .ok (.list [6, 7, 10, 0, 2, 3]) := by decide
+example : (Level.specPosT exOuter exTree 0 0).filter (fun p => exMask.getD p false) = [6, 7, 10, 0, 2, 3] := by decide
+/-- index order without a descending / list selector above the mask -/
+example : exTree.locToIloc [.all, .slice (some 6) (some 6) none, .mask exMask] = .ok (.list [3, 6, 7]) := by decide
+example : (Level.matchPositionsT [.all, .slice (some 6) (some 6) none] exTree).filter (fun p => exMask.getD p false)
+    = [3, 6, 7] := by decide
+/-- a mask that does not cover the hierarchy makes the last leaf raise -/
+example : exTree.locToIloc [.all, .all, .mask (exMask.take 10)] = .error .lookup := by decide
 
 end SF.C05
